@@ -15,7 +15,9 @@ import Mathlib.Algebra.Order.Field.Rat
   `root + 4·bit ≤ max+1  ∨  (root = 0 ∧ 2·bit ≤ max+1)`, which is what keeps `root + bit`
   representable in `decltype(root + bit)`;
 * `sqrtWith_spec`: the whole function for every digit count and width;
-* `sqrtNum_elastic`, `sqrtNum_wide`, `scaled_of_floor`: the wrappers.
+* `sqrtNum_elastic`, `sqrtNum_wide`, `scaled_of_floor`: the wrappers;
+* `startShift_cint`: the closed form of the start-bit shift equals the `CInt` evaluation of
+  `(digits - 1) & ~1`.
 -/
 namespace Cnl.SqrtProofs
 open Cnl Cnl.Sqrt Cnl.SqrtSpec
@@ -290,6 +292,32 @@ theorem sqrtInt_spec (T : IntTy) (hD : 1 ≤ T.digits) (x : Int) (hx0 : 0 ≤ x)
   have := max_eq T
   exact sqrtWith_spec T.digits T x hD (digits_le_promote T) hx0 (by omega)
 
+theorem wrap_of_inRange_signed {P : IntTy} (h1 : 1 ≤ P.bits) (hs : P.signed = true) {x : Int}
+    (hr : P.InRange x) : P.wrap x = x := by
+  unfold IntTy.wrap
+  obtain ⟨hlo, hhi⟩ := hr
+  unfold IntTy.lowest at hlo
+  unfold IntTy.max at hhi
+  have e : (2:Int) ^ P.bits = 2 * 2 ^ (P.bits - 1) := by
+    rw [← pow_succ']; congr 1; omega
+  simp only [hs, if_true] at hlo hhi ⊢
+  rw [Int.emod_eq_of_lt (by omega) (by omega)]; omega
+
+theorem sqrtInt_negative (T : IntTy) (x : Int) (hx : x < 0) (hr : (promote T).InRange x)
+    (hs : (promote T).signed = true) :
+    sqrtInt T x = .unreachable "sqrt.h assert: x >= Integer{0}" := by
+  have h1 : 1 ≤ (promote T).bits := by have := promote_bits T; omega
+  have hw : (promote T).wrap x = x := wrap_of_inRange_signed h1 hs hr
+  have hw0 : (promote T).wrap 0 = 0 := by
+    apply wrap_of_nonneg h1 (le_refl _)
+    have := max_eq (promote T)
+    have : (0:Int) < 2 ^ (promote T).digits := by positivity
+    omega
+  have hc : cCmp .ge (T, x) (T, 0) = false := by
+    simp only [cCmp, usualArith_same, hw, hw0]
+    simpa using hx
+  simp [sqrtInt, sqrtWith, hc]
+
 theorem floor_unique {x r r' : Int} (h : IsFloorSqrt x r) (h' : IsFloorSqrt x r') : r = r' := by
   obtain ⟨a0, a1, a2⟩ := h
   obtain ⟨b0, b1, b2⟩ := h'
@@ -363,27 +391,32 @@ theorem sqrtNum_elastic (D : Nat) (N R : IntTy) (hR : elasticRep D N = some R) (
   simp only [sqrtNum, hR, hs, bind, Res.bind, hR', convert, hw]
 
 theorem wideRep_digits {D : Nat} {N R : IntTy} (hN : 1 ≤ N.bits) (hR : wideRep D N = some R) : D ≤ R.digits := by
+  have key : ∀ w b : Nat, 1 ≤ b → w ≤ (w + b - 1) / b * b := by
+    intro w b hb
+    have h1 := Nat.div_add_mod (w + b - 1) b
+    have h2 := Nat.mod_lt (w + b - 1) hb
+    rw [Nat.mul_comm] at h1
+    generalize (w + b - 1) / b * b = q at *
+    omega
   unfold wideRep at hR
-  split_ifs at hR with h
-  · exact le_trans (le_max_right _ _) (setDigits_spec hR).1
-  · simp at hR
-    subst hR
-    have key : ∀ w b : Nat, 1 ≤ b → w ≤ (w + b - 1) / b * b := by
-      intro w b hb
-      have h1 := Nat.div_add_mod (w + b - 1) b
-      have h2 := Nat.mod_lt (w + b - 1) hb
-      rw [Nat.mul_comm] at h1
-      generalize (w + b - 1) / b * b = q at *
+  cases hs : N.signed
+  · simp only [hs, Bool.false_eq_true, if_false] at hR
+    by_cases h : D ≤ 128
+    · simp only [h, if_true] at hR
+      exact le_trans (le_max_right _ _) (setDigits_spec hR).1
+    · simp only [h, if_false, Option.some.injEq] at hR
+      subst hR
+      have := key (D + 0) N.bits hN
+      simpa [IntTy.digits] using this
+  · simp only [hs, ↓reduceIte] at hR
+    by_cases h : D ≤ 127
+    · simp only [h, ↓reduceIte] at hR
+      exact le_trans (le_max_right _ _) (setDigits_spec hR).1
+    · simp only [h, ↓reduceIte, Option.some.injEq] at hR
+      subst hR
+      have := key (D + 1) N.bits hN
+      simp only [IntTy.digits, ↓reduceIte]
       omega
-    have := key (D + (if N.signed then 1 else 0)) N.bits hN
-    unfold IntTy.digits
-    by_cases hs : N.signed
-    · simp only [hs, if_true] at this ⊢
-      trace_state
-      omega
-    · simp only [hs] at this ⊢
-      trace_state
-      simpa using this
 
 theorem sqrtNum_wide (D : Nat) (N R : IntTy) (hN : 1 ≤ N.bits) (hR : wideRep D N = some R) (h32 : 32 ≤ R.bits)
     (hD : 1 ≤ D) (x : Int) (hx0 : 0 ≤ x) (hx : x < 2 ^ D) :
@@ -427,11 +460,60 @@ theorem sqrtNum_scaled (rep : Ty) (e : Int) (radix : Nat) (he : e % 2 = 0) (x : 
     (h : sqrtNum rep x = .ok (t', r)) :
     sqrtNum (.sc rep e radix) x = .ok (.sc t' (e / 2) radix, r) := by
   have : e.tdiv 2 = e / 2 := by
-    have h1 := Int.mul_tdiv_add_tmod e 2
-    have h2 : e.tmod 2 = 0 := by
-      have := Int.tmod_eq_emod e 2
-      omega
-    omega
+    obtain ⟨k, rfl⟩ := Int.dvd_of_emod_eq_zero he
+    rw [Int.mul_tdiv_cancel_left _ (by decide), Int.mul_ediv_cancel_left _ (by decide)]
   simp [sqrtNum, he, h, Res.map, bind, Res.bind, this]
+
+/-! ## the start-bit constant -/
+
+theorem xor_one_of_odd (n : Nat) (h : n % 2 = 1) : n ^^^ 1 = n - 1 := by
+  apply Nat.eq_of_testBit_eq
+  intro i
+  rw [Nat.testBit_xor]
+  cases i with
+  | zero =>
+    simp [Nat.testBit_zero, h]
+    omega
+  | succ i =>
+    simp [Nat.testBit_succ]
+    congr 1
+    omega
+
+theorem and_clear_low (n : Nat) (h : n < 2 ^ 32) : n &&& 4294967294 = n - n % 2 := by
+  have e : (4294967294 : Nat) = (2 ^ 32 - 1) ^^^ 1 := by decide
+  rw [e, Nat.and_xor_distrib_left, Nat.and_two_pow_sub_one_eq_mod, Nat.mod_eq_of_lt h, Nat.and_one_is_mod]
+  rcases Nat.mod_two_eq_zero_or_one n with h0 | h1
+  · rw [h0]; simp
+  · rw [h1]; exact xor_one_of_odd n h1
+
+/-- the closed form used by the model is the value of the C++ constant expression
+`(digits_v<Integer> - 1) & ~1` evaluated in `int`, for every digit count an `int` can hold -/
+theorem startShift_cint (D : Nat) (hD : 1 ≤ D) (hD2 : D < 2 ^ 31) :
+    startShiftC D = .ok (i32, (startShift D : Int)) := by
+  have h32 : 32 ≤ i32.bits := by decide
+  have hmax : i32.max = 2147483647 := by decide
+  have hsub : cBin .sub (i32, (D : Int)) (i32, 1) = .ok (i32, (D : Int) - 1) :=
+    cBin_sub_ok h32 (by omega) (by omega) (by rw [hmax]; omega)
+  have hnot : cNot (i32, 1) = .ok (i32, -2) := by decide
+  have hlow : i32.lowest = -2147483648 := by decide
+  have hw1 : i32.wrap ((D : Int) - 1) = (D : Int) - 1 :=
+    wrap_of_nonneg (by decide) (by omega) (by rw [hmax]; omega)
+  have hw2 : i32.wrap (-2) = -2 := by decide
+  have hb1 : bitPattern i32 ((D : Int) - 1) = D - 1 := by
+    unfold bitPattern
+    have : ((D : Int) - 1) % 2 ^ i32.bits = (D : Int) - 1 :=
+      Int.emod_eq_of_lt (by omega) (by show (D : Int) - 1 < 2 ^ 32; omega)
+    rw [this]; omega
+  have hb2 : bitPattern i32 (-2) = 4294967294 := by decide
+  unfold startShiftC
+  rw [hsub, hnot]
+  simp only [Res.bind_ok]
+  simp only [cBin, usualArith_self h32, hw1, hw2, hb1, hb2]
+  rw [and_clear_low (D - 1) (by omega)]
+  have hv : i32.wrap (Int.ofNat (D - 1 - (D - 1) % 2)) = (startShift D : Int) := by
+    have : (Int.ofNat (D - 1 - (D - 1) % 2)) = (startShift D : Int) := rfl
+    rw [this]
+    exact wrap_of_nonneg (by decide) (by omega) (by rw [hmax]; unfold startShift; omega)
+  rw [hv]
 
 end Cnl.SqrtProofs
